@@ -199,7 +199,63 @@ def check_doc(doc, seeds=(1, 2)):
     return out
 
 
+# ---- "brace expressions in prose are replaced by their content with its numbers scaled": the content, read independently
+BRACE_PROBES = ["{2} eggs", "Use {1/2} cup and {1 1/2} tsp.", "{0 eggs} today", "{2 hours at 0 degrees}", "{0/4 of it} left", "{10} or {0.5} or {0.0}",
+                "{serves 4, or 8 small}", "a{3}b{ 4 }c", "{1 / 2} and {3\t1/ 4}", "{7}{8} {9}", "{12.50 g}", "{007}", "{1/3}"]
+
+
+def brace_expected(line, k):
+    """the visible text of a prose line at scale k (numbers inside braces multiplied and shown by format_number, the rest verbatim)"""
+    from recipe_grid.number_formatting import format_number
+    out, i = "", 0
+    num = re.compile(r"(?:(\d+)[ \t]+)?(\d+)[ \t]*/[ \t]*(0*[1-9]\d*)|(\d+(?:\.\d*)?)")
+    while i < len(line):
+        if line[i] != "{":
+            out += line[i]
+            i += 1
+            continue
+        j = i + 1
+        while j < len(line):
+            m = num.match(line, j)
+            if m:
+                if m.group(2) is not None:
+                    v = int(m.group(1) or 0) + Fraction(int(m.group(2)), int(m.group(3)))
+                else:
+                    v = int(m.group(4)) if "." not in m.group(4) else float(m.group(4))
+                out += format_number(v * k).replace("/", "\u2044")
+                j = m.end()
+            elif line[j] == "\\" and j + 1 < len(line):
+                out += line[j + 1]
+                j += 2
+            elif line[j] == "}":
+                break
+            else:
+                out += line[j]
+                j += 1
+        i = j + 1
+    return out
+
+
+def check_brace_probe(line):
+    out = []
+    mr = M.compile_markdown("%s\n" % line)
+    for k in (1, 2, Fraction(3, 2), Fraction(1, 3)):
+        html = mr.render(k)
+        m = re.search(r"<p>(.*?)</p>", html, re.S)
+        import html as pyhtml
+        shown = pyhtml.unescape(re.sub(r"<[^>]*>", "", m.group(1))) if m else None
+        want = brace_expected(line, k)
+        if shown is None or " ".join(shown.split()) != " ".join(want.split()):
+            out.append(("C13:brace-expression-content-wrong", "%r at scale %r reads %r, expected %r" % (line, k, shown, want)))
+            break
+    return out
+
+
 def oracle(run):
+    for line in BRACE_PROBES:
+        run.case(("brace-probe", line), True, kind="brace-probe")
+        for sig, detail in check_brace_probe(line):
+            run.violate(sig, detail, {"brace_probe": line})
     for doc in gen_cases(run, run.budget(150, 4000)):
         run.case(("oracle", doc.text()), bool(doc.blocks))
         for sig, detail in check_doc(doc):
@@ -209,6 +265,11 @@ def oracle(run):
 
 def replay(run, obj):
     r = obj["replay"]
+    if "brace_probe" in r:
+        res = check_brace_probe(r["brace_probe"])
+        for x in res:
+            print(*x)
+        return bool(res)
     doc = gen_md.Doc()
     doc.lines = r["lines"]
     doc.blocks = r["blocks"]
